@@ -3,6 +3,7 @@ package main
 import (
 	"fmt"
 	"go/ast"
+	"go/token"
 	"go/types"
 	"os"
 	"sort"
@@ -263,21 +264,101 @@ func checkC17(c *Ctx) (string, []string) {
 
 	c.Rule("C17.service-keys", "service entries are recognised with the constructors that produce them: IsPreimage rebuilds the key with encodeDelta3KeyVal(service, Blake2b(value), value); the lookup pass searches EncodeDelta4KeyVal(service, (preimage hash, |preimage|)); the update helpers change exactly one component of an account and create a missing account with all three dictionaries; encodeDelta1 writes the ServiceInfo fields in the order ServiceInfo.Decode reads them", 10)
 	isp := c.Fn(mzPkg, "IsPreimage")
-	c.checkShapes("C17.service-keys", K+"IsPreimage", isp, abbrMap(returnShapes(isp)), map[string][]string{
-		"ret#0": {"(merklization.encodeDelta3KeyVal(merklization.DecodeServiceIDFromType3(p0)#0, hash.Blake2bHash(p1), p1).Key == p0)", "false"},
-	})
+	{
+		// helpers of the package are seen through, whatever their size
+		ho := robustOpts
+		ho.inline = func(f *ssa.Function) bool {
+			return f != nil && len(f.Blocks) > 0 && f.Pkg != nil && f.Pkg == isp.Pkg && !token.IsExported(f.Name()) && f.Name() != "encodeDelta3KeyVal" && f.Signature.Recv() == nil
+		}
+		var rets []string
+		for _, s := range abbrMap(returnShapesO(isp, ho))["ret#0"] {
+			rets = append(rets, expandAlts(s)...)
+		}
+		pre := "(merklization.encodeDelta3KeyVal(merklization.DecodeServiceIDFromType3(p0)#0, hash.Blake2bHash(p1), "
+		okP, okF := false, true
+		for _, s := range uniqSorted(rets) {
+			switch {
+			case s == "false":
+			case strings.HasPrefix(s, pre) && strings.HasSuffix(s, ").Key == p0)"):
+				okP = true
+			default:
+				okF = false
+			}
+		}
+		c.Check(okP && okF, "C17.service-keys", K+"IsPreimage · ret#0", isp.Pos(), "key rebuilt with encodeDelta3KeyVal(service of the key, Blake2b(value), ·) and compared with the entry's key", fmt.Sprintf("IsPreimage decides by %v; it must compare the entry's key with encodeDelta3KeyVal(DecodeServiceIDFromType3(key), Blake2b(value), ·).Key", uniqSorted(rets)))
+	}
 	for _, h := range []struct{ name, field string }{{"updateServiceInfo", ""}, {"updatePreimage", "PreimageLookup"}, {"updateLookup", "LookupDict"}} {
 		f := c.Fn(mzPkg, h.name)
-		c.checkCondSet("C17.service-keys", K+h.name, f, []string{"p0.Delta[p1]#1"})
-		want := []string{"mapset p0.Delta[p1] ← *alloc:types.ServiceAccount"}
-		if h.field != "" {
-			want = append(want, "mapset alloc:types.ServiceAccount."+h.field+"[p2] ← p3")
+		ho := robustOpts
+		ho.inline = func(g *ssa.Function) bool {
+			return g != nil && g != f && len(g.Blocks) > 0 && g.Pkg != nil && g.Pkg == f.Pkg && !token.IsExported(g.Name()) && g.Signature.Recv() == nil
 		}
-		c.checkEffects("C17.service-keys", K+h.name, f, abbrAll(effectShapesOpt(f, nil, true)), want)
-		// fresh account has the three dictionaries
-		ls := literalStores(f, "types.ServiceAccount")
-		okMaps := len(ls["PreimageLookup"]) == 1 && len(ls["LookupDict"]) == 1 && len(ls["StorageDict"]) == 1
-		c.Check(okMaps, "C17.service-keys", K+h.name+" · fresh account", f.Pos(), "a missing account is created with PreimageLookup, LookupDict and StorageDict allocated", fmt.Sprintf("fresh account literal sets %v", ls))
+		var effects []string
+		var freshStores []ssa.Instruction
+		dicts := map[string]bool{}
+		existsTest := false
+		visitWithHelpers(f, ho, func(g *ssa.Function, subst map[ssa.Value]string, in ssa.Instruction) {
+			switch x := in.(type) {
+			case *ssa.MapUpdate:
+				m, k, v := abbr(exprStrSubst(x.Map, robustOpts, subst)), abbr(exprStrSubst(x.Key, robustOpts, subst)), abbr(exprStrSubst(x.Value, robustOpts, subst))
+				switch {
+				case m == "p0.Delta" && k == "p1":
+					effects = append(effects, "Delta[service] ← account")
+				case h.field != "" && strings.HasSuffix(m, "."+h.field) && k == "p2" && v == "p3":
+					effects = append(effects, "account."+h.field+"[key] ← value")
+				default:
+					effects = append(effects, "mapset "+m+"["+k+"] ← "+v)
+				}
+			case *ssa.Store:
+				a := abbr(exprStrSubst(x.Addr, robustOpts, subst))
+				if !rootedInLocal(x.Addr) {
+					effects = append(effects, "store "+a)
+				}
+				if fa, isFA := x.Addr.(*ssa.FieldAddr); isFA && strings.HasSuffix(typeStr(derefType(fa.X.Type())), "types.ServiceAccount") {
+					fld := fieldName(fa.X.Type(), fa.Field)
+					if _, isMk := x.Val.(*ssa.MakeMap); isMk {
+						dicts[fld] = true
+						freshStores = append(freshStores, x)
+					}
+					if h.field == "" && fld == "ServiceInfo" && abbr(exprStrSubst(x.Val, robustOpts, subst)) == "p2" {
+						effects = append(effects, "account.ServiceInfo ← info")
+					}
+				}
+			case *ssa.If:
+				if abbr(exprStrSubst(x.Cond, robustOpts, subst)) == "p0.Delta[p1]#1" {
+					existsTest = true
+				}
+			}
+		})
+		want := []string{"Delta[service] ← account"}
+		if h.field != "" {
+			want = append(want, "account."+h.field+"[key] ← value")
+		} else {
+			want = append(want, "account.ServiceInfo ← info")
+		}
+		c.requireSet("C17.service-keys", K+h.name+" · effects", f.Pos(), "effects", uniqSorted(effects), want)
+		reuse := existsTest && len(freshStores) > 0
+		why := "the helper does not test whether the account already exists (an existing account would be replaced by an empty one)"
+		for _, fs := range freshStores {
+			for ex := int64(0); ex <= 1; ex++ {
+				some, all := reachFromEntry(fs, robustOpts, func(s string) (int64, bool) {
+					if strings.HasSuffix(s, ".Delta[p1]#1") {
+						return ex, true
+					}
+					return 0, false
+				})
+				if ex == 1 && some {
+					reuse = false
+					why = "an account that already exists can still be replaced by a fresh one (the fresh account is reachable although the lookup found the service): its decoded content is lost"
+				}
+				if ex == 0 && !all {
+					reuse = false
+					why = "a missing account is not always created"
+				}
+			}
+		}
+		c.Check(reuse, "C17.service-keys", K+h.name+" · tests p0.Delta[p1]#1", f.Pos(), "a fresh account is made exactly when the service has none; an existing account is reused", why)
+		c.Check(dicts["PreimageLookup"] && dicts["LookupDict"] && dicts["StorageDict"], "C17.service-keys", K+h.name+" · fresh account", f.Pos(), "a missing account is created with PreimageLookup, LookupDict and StorageDict allocated", fmt.Sprintf("fresh account allocates only %v", keysOf(dicts)))
 	}
 	// parser call shapes
 	pf := c.Fn(mzPkg, "StateKeyValsToState")
@@ -302,7 +383,7 @@ func checkC17(c *Ctx) (string, []string) {
 	// lookup search key
 	var d4 []string
 	allInstrs(pf, func(in ssa.Instruction) {
-		if ci, ok := in.(ssa.CallInstruction); ok && calleeFunc(ci) != nil && calleeFunc(ci).Name() == "EncodeDelta4KeyVal" {
+		if ci, ok := in.(ssa.CallInstruction); ok && calleeFunc(ci) != nil && (calleeFunc(ci).Name() == "EncodeDelta4KeyVal" || calleeFunc(ci).Name() == "EncodeDelta4Key") {
 			d4 = append(d4, abbr(exprStr(ci.Common().Args[1], shapeOpts)))
 		}
 	})
